@@ -55,6 +55,7 @@ def install_seams():
 
 
 SIGNALS = [('tone', 32, 2, 'lin', 'none'), ('tone', 48, 2, 'none', 'am')]
+XOPTS = {'pad_width': 4, 'parabolic_extrema': True}
 SIGMAS = (0.0, 0.2, 2.0)
 
 
@@ -102,6 +103,14 @@ def build_cases(tier, seed):
     for (E, P) in ((1500, 1),) if tier == 'quick' else ((1500, 1), (3000, 2)):
         C, cs = nchunks(E, P)
         out.append(('ens', 0, E, P, 'single', 0.2, tuple(i % P for i in range(C)), seed))
+    # non-default extrema options (they must govern both sifts of a flip member and every worker), and data in small
+    # physical units (std ~ 1e-12: the noise is a proportion of it, never "numerically zero")
+    for mode in ('single', 'flip'):
+        for (E, P) in ((2, 1), (3, 2)):
+            C, cs = nchunks(E, P)
+            for rgs in enum.restricted_growth_strings(C, P):
+                out.append(('ens-opts', 0, E, P, mode, 0.3, rgs, seed))
+                out.append(('ens-tiny', 0, E, P, mode, 0.2, rgs, seed))
     # integer-typed input (ADC counts): same rules
     for mode in ('single', 'flip'):
         for sg in (0.0, 0.3):
@@ -154,6 +163,9 @@ def run_controlled(case):
     x = signal_of(si, seed)
     if kind == 'ens-int':
         x = np.round(x * 40).astype(np.int16)
+    if kind == 'ens-tiny':
+        x = x * 1e-12
+    extra = {'extrema_opts': dict(XOPTS)} if kind == 'ens-opts' else {}
     rs = 0
     if isinstance(sg, (tuple, list)):
         sg, rs = sg
@@ -161,9 +173,9 @@ def run_controlled(case):
     cm = forkpool.ControlledMP([list(rgs)])
     with forkpool.installed(cm):
         try:
-            if kind in ('ens', 'ens-nocap', 'ens-int'):
+            if kind in ('ens', 'ens-nocap', 'ens-int', 'ens-opts', 'ens-tiny'):
                 res = S.ensemble_sift(x.copy(), nensembles=E, nprocesses=P, noise_mode=mode, ensemble_noise=sg,
-                                      max_imfs=None if kind == 'ens-nocap' else 2)
+                                      max_imfs=None if kind == 'ens-nocap' else 2, **extra)
             else:
                 res = S.complete_ensemble_sift(x.copy(), nensembles=E, nprocesses=P, noise_mode=mode, ensemble_noise=sg, max_imfs=2)
         except forkpool.HarnessError:
@@ -193,12 +205,12 @@ def jobs_from_log(log):
     return jobs, direct
 
 
-def member_mean(arrs_per_member, cap):
+def member_mean(arrs_per_member, cap, opts=None):
     """Per-IMF mean over members of sift(traced array); flip members are the mean of their +/- decompositions."""
     sift = _orig['sift']
     mem = []
     for arrs in arrs_per_member:
-        ds = [np.asarray(sift(a.copy(), max_imfs=cap)) for a in arrs]
+        ds = [np.asarray(sift(a.copy(), max_imfs=cap, **(opts or {}))) for a in arrs]
         n = min(d.shape[1] for d in ds)
         mem.append(sum(d[:, :n] for d in ds) / len(ds))
     n = min(m.shape[1] for m in mem)
@@ -221,11 +233,12 @@ def check_case(case):
     if isinstance(res, Exception):
         return Outcome(cls='raise', viols=[('%s:raise:%s' % (kind, type(res).__name__), '%s raised %r' % (tag, res))])
     jobs, direct = jobs_from_log(cm.log)
-    scale = 1e-12 * (1 + np.max(np.abs(x)))
+    scale = 1e-12 * ((1e-12 if case[0] == 'ens-tiny' else 1) + np.max(np.abs(x)))      # relative to the data's own unit
     X = x[:, None]
     nper = 2 if mode == 'flip' else 1
     nocap = kind == 'ens-nocap'
-    if kind in ('ens-nocap', 'ens-int'):
+    member_opts = {'extrema_opts': dict(XOPTS)} if kind == 'ens-opts' else {}
+    if kind in ('ens-nocap', 'ens-int', 'ens-opts', 'ens-tiny'):
         kind = 'ens'
     x = np.asarray(x, dtype=float)
     if kind == 'ens':
@@ -257,7 +270,7 @@ def check_case(case):
                 viols.append(('%s:flip-pair' % kind, '%s: the two sifts of a member are not input +/- the same noise' % tag))
                 break
     # (2) the output is the per-IMF mean over members
-    want = member_mean(arrs, (None if nocap else 2) if kind == 'ens' else 1)
+    want = member_mean(arrs, (None if nocap else 2) if kind == 'ens' else 1, member_opts)
     got = imf if kind == 'ens' else imf[:, :1]
     if got.shape != want.shape or not np.max(np.abs(got - want)) <= scale:
         viols.append(('%s:not-the-mean' % kind, '%s: output differs from the mean of member decompositions (shape %r vs %r%s)' % (
